@@ -77,6 +77,19 @@ def run(ctx):
         d = G5.document(rng)
         docs.append((d, G5.render(rng, d)))
     G5.TAB_TEXT = False
+    # headers whose Format field comes last, after several thousand characters of other header fields
+    for i in range(ctx.n(100, 1500)):
+        d = G5.document(rng)
+        d[0]['comment'] = [('N', G5.words(rng, 3, 8)) for _ in range(rng.choice([40, 80, 150]))]
+        t = G5.render(rng, d)
+        first, sep, rest = t.partition('\n\n')
+        tail = first[len(first.rstrip('\n')):]
+        ls = first.rstrip('\n').split('\n')
+        fl = [l for l in ls if l.startswith('Format:')]
+        if len(fl) == 1:
+            ls.remove(fl[0])
+            t = '\n'.join(ls + fl) + tail + sep + rest
+        docs.append((d, t))
     fails = ctx.prop('prop:dep5', docs, p_doc)
     fails += [((f[0][1]), f[1] + ' (after parsing a text that takes a recovery path: state kept across calls?)')
               for f in ctx.prop('prop:dep5-after-recovery', list(enumerate(docs[:ctx.n(600, 6000)])), p_doc_after_recovery)]
